@@ -104,7 +104,12 @@ TEXT = {
                  "that is shaped like the catalogue and carries the children its kind's SQL() body dereferences unconditionally (a decidable predicate derived from the tables; "
                  "table well-formedness re-decided by the kernel on every run); every expression kind that can reach paren() has a precedence row (BadExpr exempt, deliberately); "
                  "Walk terminates with the specified events. The link 'the parser returns only such trees' is not proved: SQL(), Pos(), End(), Walk, Inspect, Preorder are "
-                 "executed under recover on every node of every tree returned for the corpus, probes, mutations, grafts and expression soups.",
+                 "executed under recover on every node of every tree returned for the corpus, probes, mutations, grafts and expression soups. "
+                 "Whole grammar, static (regenerated on every run, kernel-decided): MF.Props.C04.sites_fill_required - at every node literal ast.K{...} of parser.go every single-node field that "
+                 "K's SQL()/Pos()/End() dereference unconditionally (requiredFields, derived from the regenerated tables by the clauses of SqlShaped; sqlShaped_of_required) is filled from a "
+                 "never-nil source on every path, Ident.Name comes from an identifier token, the Bad* wrappers fill BadNode, no later assignment x.F = v empties a required field "
+                 "(facts read out of parser.go by tools/extract/nodelits.go; 5 sites accepted in an explicit, justified table that fails when stale); that the literal sites execute as the syntactic "
+                 "flow analysis says is the extracted fact, not a theorem.",
         "design_ref": "DESIGN.md §4 C04",
         "note": "Trusted: translator + interpreters (TREE channel); SQL()/parser link by exploration only.",
         "technique": "Lean 4 proof over regenerated tables (decide +kernel instantiation) + execution of all four operations on every node of explored trees",
